@@ -77,6 +77,7 @@ func serverIsLocal(v ssa.Value) bool {
 }
 
 func runC16(p *an.Prog, r *an.Run, tier string) {
+	checkFreshParams(p, r)
 	regs := Registrations(p)
 	r.Floor("registrations", len(regs), 7)
 	exposed := map[string]string{}
@@ -944,103 +945,8 @@ func runC17rest(p *an.Prog, r *an.Run, tier string) {
 		r.Undec("payload-verbatim", "jsonrpc2.Message", token.NoPos, "type not found")
 	}
 
-	// ---- single-writer (gorilla)
-	gc := p.Named("jsonrpc2/ws/gorilla", "wsCodec")
-	if gc == nil {
-		r.Undec("single-writer", "gorilla.wsCodec", token.NoPos, "type not found")
-	} else {
-		var bad []string
-		nIO := 0
-		for i := 0; i < gc.NumMethods(); i++ {
-			m := p.SSA.FuncValue(gc.Method(i))
-			if m == nil || len(m.Blocks) == 0 {
-				continue
-			}
-			r.Analysed(an.FuncName(m))
-			li := an.Locksets(m, nil)
-			for _, c := range an.Calls(m, false) {
-				f := an.CallObj(c)
-				if f == nil {
-					continue
-				}
-				onConn := an.RecvNamed(f) != nil && an.RecvNamed(f).Obj().Name() == "Conn" && an.RecvNamed(f).Obj().Pkg() != nil && an.RecvNamed(f).Obj().Pkg().Path() == "github.com/gorilla/websocket"
-				if !onConn && c.Common().IsInvoke() && len(m.Params) > 0 {
-					// the connection held behind a small interface: a method invoked on a value loaded from a field of
-					// the codec itself
-					v := c.Common().Value
-					if u, ok := v.(*ssa.UnOp); ok && u.Op == token.MUL {
-						if root, path := an.RootPath(u.X); root == ssa.Value(m.Params[0]) && path != "" {
-							onConn = true
-						}
-					}
-				}
-				if !onConn {
-					continue
-				}
-				var need an.LockKey
-				switch {
-				case strings.HasPrefix(f.Name(), "Write") || f.Name() == "NextWriter":
-					need = "p0.muWrite"
-				case strings.HasPrefix(f.Name(), "Read") || f.Name() == "NextReader":
-					need = "p0.muRead"
-				default:
-					continue
-				}
-				nIO++
-				if w, ok := li.Before[c.(ssa.Instruction)][need]; !ok || !w {
-					bad = append(bad, "conn."+f.Name()+" in "+an.FuncName(m)+" at "+p.Pos(c.Pos())+" without "+string(need)+": gorilla allows one concurrent writer and one concurrent reader; interleaved writers corrupt frames")
-				}
-			}
-		}
-		// deferred connection I/O registered before the deferred Unlock runs after it (LIFO): outside the lock
-		for i := 0; i < gc.NumMethods(); i++ {
-			m := p.SSA.FuncValue(gc.Method(i))
-			if m == nil || len(m.Blocks) == 0 {
-				continue
-			}
-			var unlocks, ios []*ssa.Defer
-			an.AllInstrs(m, func(in ssa.Instruction) {
-				df, ok := in.(*ssa.Defer)
-				if !ok {
-					return
-				}
-				f := an.CallObj(df)
-				if f != nil && f.Pkg() != nil && f.Pkg().Path() == "sync" && f.Name() == "Unlock" {
-					unlocks = append(unlocks, df)
-					return
-				}
-				// io on the connection or on a writer/reader obtained from it
-				isIO := false
-				if f != nil && an.RecvNamed(f) != nil && an.RecvNamed(f).Obj().Pkg() != nil && an.RecvNamed(f).Obj().Pkg().Path() == "github.com/gorilla/websocket" {
-					isIO = true
-				}
-				var recvv ssa.Value
-				if df.Call.IsInvoke() {
-					recvv = df.Call.Value
-				} else if len(df.Call.Args) > 0 {
-					recvv = df.Call.Args[0]
-				}
-				if recvv != nil && p.Derives(0, recvv).CallTo(func(g *types.Func) bool {
-					return an.RecvNamed(g) != nil && an.RecvNamed(g).Obj().Pkg() != nil && an.RecvNamed(g).Obj().Pkg().Path() == "github.com/gorilla/websocket"
-				}) != nil {
-					isIO = true
-				}
-				if isIO && f != nil && f.Name() != "Close" || isIO && recvv != nil && df.Call.IsInvoke() {
-					ios = append(ios, df)
-				}
-			})
-			for _, io := range ios {
-				for _, u := range unlocks {
-					if an.Dominates(io, u) {
-						bad = append(bad, "in "+an.FuncName(m)+" the deferred connection I/O at "+p.Pos(io.Pos())+" is registered before the deferred Unlock at "+p.Pos(u.Pos())+": deferred calls run last-in-first-out, so it executes after the mutex has been released and a second writer can interleave its frame")
-					}
-				}
-			}
-		}
-		r.Floor("gorilla-io-calls", nIO, 2)
-		checkReadErrorTerminal(p, r)
-		r.Check(len(bad) == 0, "single-writer", "gorilla.wsCodec", token.NoPos, "every connection write holds muWrite, every read holds muRead", "%s", strings.Join(bad, "; "))
-	}
+	// ---- single-writer (gorilla), shared with C15: a second concurrent writer makes gorilla panic
+	checkGorillaSingleWriter(p, r)
 
 	// ---- framing (gobwas)
 	if rm, wm := p.Method("jsonrpc2/ws/gobwas", "wsCodec", "ReadMessage"), p.Method("jsonrpc2/ws/gobwas", "wsCodec", "WriteMessage"); rm != nil && wm != nil {
@@ -1200,6 +1106,40 @@ func runC17rest(p *an.Prog, r *an.Run, tier string) {
 		r.Check(len(bad) == 0, "http-once", an.FuncName(hc), hc.Pos(), "the HTTP stub sends a plain POST the transport never replays", "%s", strings.Join(dedup(bad), "; "))
 	} else {
 		r.Undec("http-once", "jsonrpc2.HTTPService", token.NoPos, "HTTPService.Call not found")
+	}
+	// ... and on the serving side each POST is read through a codec of its own: the stream codec keeps what it read
+	// ahead for its next read; a codec that served another request (kept in a field, a global or a sync.Pool) puts
+	// that request's left-over bytes in front of this one's body
+	if sh := p.Method("jsonrpc2", "HTTPServer", "ServeHTTP"); sh != nil {
+		r.Analysed(an.FuncName(sh))
+		var cb []string
+		nRead := 0
+		for _, fn := range an.WithAnon(sh) {
+			for _, c := range an.Calls(fn, false) {
+				f := an.CallObj(c)
+				if f == nil || f.Name() != "ReadMessage" || len(c.Common().Args) == 0 || c.Common().IsInvoke() {
+					continue
+				}
+				nRead++
+				recv := c.Common().Args[0]
+				root, _ := an.RootPath(recv)
+				if u, ok := root.(*ssa.UnOp); ok && u.Op == token.MUL {
+					if al, ok := u.X.(*ssa.Alloc); ok {
+						// a local holding the codec pointer: judge what was stored into it
+						for _, ref := range *al.Referrers() {
+							if st, ok := ref.(*ssa.Store); ok && st.Addr == ssa.Value(al) {
+								root, _ = an.RootPath(st.Val)
+							}
+						}
+					}
+				}
+				if al, ok := root.(*ssa.Alloc); ok && al.Parent() == sh {
+					continue
+				}
+				cb = append(cb, "the request is read through a codec that is not made for it ("+p.Pos(c.Pos())+", from "+root.String()+"): bytes a previous request left unread are parsed as the beginning of this one")
+			}
+		}
+		r.Check(len(cb) == 0 && nRead > 0, "http-once", an.FuncName(sh), sh.Pos(), "each POST is read through a codec made for it", "%s", strings.Join(dedup(cb), "; "))
 	}
 
 	// ---- shipped-codec
@@ -1374,4 +1314,278 @@ func checkReadErrorTerminal(p *an.Prog, r *an.Run) {
 		}
 	}
 	r.Check(len(bad) == 0 && n > 0, "read-error-terminal", "gorilla.wsCodec", token.NoPos, "no connection read follows a failed one", "%s (connection reads judged: %d)", strings.Join(dedup(bad), "; "), n)
+}
+
+// checkFreshParams: the positional-argument parser decodes each parameter into a value it has just made
+// (reflect.New(type)): encoding/json leaves the members a JSON object omits alone, so a value kept from an earlier call
+// carries that call's optional fields into the next caller's request (which then does what nobody asked for, or no
+// longer matches its own signature). Shared by C16 (declared parameters) and C06 (a refused request leaves no trace).
+func checkFreshParams(p *an.Prog, r *an.Run) {
+	ppa := p.Func("jsonrpc2", "parsePositionalArguments")
+	if ppa == nil {
+		r.Undec("fresh-params", "jsonrpc2.parsePositionalArguments", token.NoPos, "anchor not found")
+		return
+	}
+	var bad []string
+	n := 0
+	for _, fn := range an.WithAnon(ppa) {
+		for _, c := range an.Calls(fn, false) {
+			f := an.CallObj(c)
+			isDec := an.IsMethod(f, "encoding/json", "Decoder", "Decode") || an.IsFunc(f, "encoding/json", "Unmarshal")
+			if !isDec {
+				continue
+			}
+			args := c.Common().Args
+			target := args[len(args)-1]
+			n++
+			// by hand: reflect calls are opaque to the derivation analysis
+			fresh := true
+			seen := map[ssa.Value]bool{}
+			var walk func(v ssa.Value)
+			walk = func(v ssa.Value) {
+				if v == nil || seen[v] {
+					return
+				}
+				seen[v] = true
+				switch t := v.(type) {
+				case *ssa.MakeInterface:
+					walk(t.X)
+				case *ssa.Phi:
+					for _, e := range t.Edges {
+						walk(e)
+					}
+				case *ssa.UnOp:
+					if al, ok := t.X.(*ssa.Alloc); ok && t.Op == token.MUL {
+						for _, ref := range *al.Referrers() {
+							if st, ok := ref.(*ssa.Store); ok && st.Addr == ssa.Value(al) {
+								walk(st.Val)
+							}
+						}
+						return
+					}
+					fresh = false
+				case *ssa.Call:
+					g := an.CallObj(t)
+					switch {
+					case an.IsFunc(g, "reflect", "New"):
+					case g != nil && g.Pkg() != nil && g.Pkg().Path() == "reflect" && an.RecvNamed(g) != nil && an.RecvNamed(g).Obj().Name() == "Value" && len(t.Call.Args) > 0 && (g.Name() == "Interface" || g.Name() == "Addr" || g.Name() == "Elem"):
+						walk(t.Call.Args[0])
+					default:
+						fresh = false
+					}
+				case *ssa.Alloc:
+					// &local: a variable of this call
+					if t.Parent() != fn {
+						fresh = false
+					}
+				default:
+					fresh = false
+				}
+			}
+			walk(target)
+			if !fresh {
+				bad = append(bad, "the decode target at "+p.Pos(c.Pos())+" is not a value made by reflect.New in this call: a parameter value kept from an earlier request keeps the members the new request omits")
+			}
+		}
+	}
+	// ... and the slice the values travel in is made by this call too: "was this parameter supplied" is read off the
+	// slice (its length, or which slots are set); a recycled slice answers with what the previous request left in it
+	var fromMake func(fn *ssa.Function, v ssa.Value, depth int, seen map[ssa.Value]bool) string
+	fromMake = func(fn *ssa.Function, v ssa.Value, depth int, seen map[ssa.Value]bool) string {
+		if v == nil || seen[v] {
+			return ""
+		}
+		seen[v] = true
+		switch t := v.(type) {
+		case *ssa.Const, *ssa.MakeSlice:
+			return ""
+		case *ssa.Alloc:
+			if _, isArr := t.Type().(*types.Pointer).Elem().Underlying().(*types.Array); isArr {
+				return "" // a slice of a fresh array (append's spill, a composite literal)
+			}
+		case *ssa.Phi:
+			for _, e := range t.Edges {
+				if why := fromMake(fn, e, depth, seen); why != "" {
+					return why
+				}
+			}
+			return ""
+		case *ssa.Slice:
+			return fromMake(fn, t.X, depth, seen)
+		case *ssa.UnOp:
+			if al, ok := t.X.(*ssa.Alloc); ok && t.Op == token.MUL {
+				for _, ref := range *al.Referrers() {
+					if st, ok := ref.(*ssa.Store); ok && st.Addr == ssa.Value(al) {
+						if why := fromMake(fn, st.Val, depth, seen); why != "" {
+							return why
+						}
+					}
+				}
+				return ""
+			}
+		case *ssa.Call:
+			if b, ok := t.Call.Value.(*ssa.Builtin); ok && an.Ident(b.Name()) == "append" {
+				return fromMake(fn, t.Call.Args[0], depth, seen)
+			}
+			if g := t.Call.StaticCallee(); g != nil && p.InRepo(g) && len(g.Blocks) > 0 && depth > 0 {
+				why := ""
+				an.AllInstrs(g, func(in ssa.Instruction) {
+					if ret, ok := in.(*ssa.Return); ok && len(ret.Results) > 0 && why == "" {
+						why = fromMake(g, an.RetResults(ret)[0], depth-1, map[ssa.Value]bool{})
+					}
+				})
+				return why
+			}
+		}
+		return "the argument slice comes from " + v.String() + " (" + p.Pos(v.Pos()) + "), not from a make in this call"
+	}
+	an.AllInstrs(ppa, func(in ssa.Instruction) {
+		ret, ok := in.(*ssa.Return)
+		if !ok || len(ret.Results) == 0 || (ppa.Recover != nil && ret.Block() == ppa.Recover) {
+			return
+		}
+		if why := fromMake(ppa, an.RetResults(ret)[0], 2, map[ssa.Value]bool{}); why != "" {
+			bad = append(bad, why)
+		}
+	})
+	r.Check(len(bad) == 0 && n > 0, "fresh-params", an.FuncName(ppa), ppa.Pos(), "every parameter is decoded into a freshly made value", "%s (decode sites: %d)", strings.Join(dedup(bad), "; "), n)
+}
+
+// checkGorillaSingleWriter: every connection write of the shipped codec holds muWrite, every read muRead, including
+// the use of a message writer/reader obtained from the connection and deferred I/O; read errors are terminal.
+func checkGorillaSingleWriter(p *an.Prog, r *an.Run) {
+	gc := p.Named("jsonrpc2/ws/gorilla", "wsCodec")
+	if gc == nil {
+		r.Undec("single-writer", "gorilla.wsCodec", token.NoPos, "type not found")
+	} else {
+		var bad []string
+		nIO := 0
+		for i := 0; i < gc.NumMethods(); i++ {
+			m := p.SSA.FuncValue(gc.Method(i))
+			if m == nil || len(m.Blocks) == 0 {
+				continue
+			}
+			r.Analysed(an.FuncName(m))
+			li := an.Locksets(m, nil)
+			for _, c := range an.Calls(m, false) {
+				f := an.CallObj(c)
+				if f == nil {
+					continue
+				}
+				onConn := an.RecvNamed(f) != nil && an.RecvNamed(f).Obj().Name() == "Conn" && an.RecvNamed(f).Obj().Pkg() != nil && an.RecvNamed(f).Obj().Pkg().Path() == "github.com/gorilla/websocket"
+				if !onConn && c.Common().IsInvoke() && len(m.Params) > 0 {
+					// the connection held behind a small interface: a method invoked on a value loaded from a field of
+					// the codec itself
+					v := c.Common().Value
+					if u, ok := v.(*ssa.UnOp); ok && u.Op == token.MUL {
+						if root, path := an.RootPath(u.X); root == ssa.Value(m.Params[0]) && path != "" {
+							onConn = true
+						}
+					}
+				}
+				if !onConn {
+					continue
+				}
+				var need an.LockKey
+				switch {
+				case strings.HasPrefix(f.Name(), "Write") || f.Name() == "NextWriter":
+					need = "p0.muWrite"
+				case strings.HasPrefix(f.Name(), "Read") || f.Name() == "NextReader":
+					need = "p0.muRead"
+				default:
+					continue
+				}
+				nIO++
+				if w, ok := li.Before[c.(ssa.Instruction)][need]; !ok || !w {
+					bad = append(bad, "conn."+f.Name()+" in "+an.FuncName(m)+" at "+p.Pos(c.Pos())+" without "+string(need)+": gorilla allows one concurrent writer and one concurrent reader; interleaved writers corrupt frames")
+				}
+				// the message writer/reader handed out by NextWriter/NextReader IS the connection's write/read slot until
+				// it is closed/drained: everything done with it (and with an encoder or decoder wrapped around it) needs
+				// the same lock — gorilla panics on a second writer ("concurrent write to websocket connection")
+				if (f.Name() == "NextWriter" || f.Name() == "NextReader") && c.Value() != nil {
+					holders := map[ssa.Value]bool{c.Value(): true}
+					work := []ssa.Value{c.Value()}
+					for len(work) > 0 {
+						v := work[len(work)-1]
+						work = work[:len(work)-1]
+						if v.Referrers() == nil {
+							continue
+						}
+						for _, ref := range *v.Referrers() {
+							switch t := ref.(type) {
+							case *ssa.Extract, *ssa.Phi, *ssa.MakeInterface, *ssa.ChangeInterface, *ssa.TypeAssert:
+								tv := t.(ssa.Value)
+								if an.IsErrorType(tv.Type()) {
+									continue
+								}
+								if !holders[tv] {
+									holders[tv] = true
+									work = append(work, tv)
+								}
+							case ssa.CallInstruction:
+								if _, isDefer := t.(*ssa.Defer); isDefer {
+									continue // judged by the deferred-I/O rule below
+								}
+								if hw, ok := li.Before[t.(ssa.Instruction)][need]; !ok || !hw {
+									bad = append(bad, callName(t)+" in "+an.FuncName(m)+" at "+p.Pos(t.Pos())+" uses the message "+strings.ToLower(strings.TrimPrefix(f.Name(), "Next"))+" obtained at "+p.Pos(c.Pos())+" without "+string(need)+": the lock covers the claim of the connection's slot but not its use")
+								}
+								if tv := t.Value(); tv != nil && !holders[tv] && !an.IsErrorType(tv.Type()) {
+									holders[tv] = true
+									work = append(work, tv)
+								}
+							}
+						}
+					}
+				}
+			}
+		}
+		// deferred connection I/O registered before the deferred Unlock runs after it (LIFO): outside the lock
+		for i := 0; i < gc.NumMethods(); i++ {
+			m := p.SSA.FuncValue(gc.Method(i))
+			if m == nil || len(m.Blocks) == 0 {
+				continue
+			}
+			var unlocks, ios []*ssa.Defer
+			an.AllInstrs(m, func(in ssa.Instruction) {
+				df, ok := in.(*ssa.Defer)
+				if !ok {
+					return
+				}
+				f := an.CallObj(df)
+				if f != nil && f.Pkg() != nil && f.Pkg().Path() == "sync" && f.Name() == "Unlock" {
+					unlocks = append(unlocks, df)
+					return
+				}
+				// io on the connection or on a writer/reader obtained from it
+				isIO := false
+				if f != nil && an.RecvNamed(f) != nil && an.RecvNamed(f).Obj().Pkg() != nil && an.RecvNamed(f).Obj().Pkg().Path() == "github.com/gorilla/websocket" {
+					isIO = true
+				}
+				var recvv ssa.Value
+				if df.Call.IsInvoke() {
+					recvv = df.Call.Value
+				} else if len(df.Call.Args) > 0 {
+					recvv = df.Call.Args[0]
+				}
+				if recvv != nil && p.Derives(0, recvv).CallTo(func(g *types.Func) bool {
+					return an.RecvNamed(g) != nil && an.RecvNamed(g).Obj().Pkg() != nil && an.RecvNamed(g).Obj().Pkg().Path() == "github.com/gorilla/websocket"
+				}) != nil {
+					isIO = true
+				}
+				if isIO && f != nil && f.Name() != "Close" || isIO && recvv != nil && df.Call.IsInvoke() {
+					ios = append(ios, df)
+				}
+			})
+			for _, io := range ios {
+				for _, u := range unlocks {
+					if an.Dominates(io, u) {
+						bad = append(bad, "in "+an.FuncName(m)+" the deferred connection I/O at "+p.Pos(io.Pos())+" is registered before the deferred Unlock at "+p.Pos(u.Pos())+": deferred calls run last-in-first-out, so it executes after the mutex has been released and a second writer can interleave its frame")
+					}
+				}
+			}
+		}
+		r.Floor("gorilla-io-calls", nIO, 2)
+		checkReadErrorTerminal(p, r)
+		r.Check(len(bad) == 0, "single-writer", "gorilla.wsCodec", token.NoPos, "every connection write holds muWrite, every read holds muRead", "%s", strings.Join(bad, "; "))
+	}
 }
